@@ -419,6 +419,9 @@ func genGov(rt *rapid.T, c *loopCase) {
 			switch gen.Pick(rt, "ikind", 35, 35, 15, 15) {
 			case 0:
 				ch.MaxMul = gen.OneOf[int64](rt, "gmaxmul", 1, 2, 3, 5, 10, 10)
+				if c.MaxI >= 3*c.MinI && gen.Chance(rt, "gmaxcut", 1, 2) {
+					ch.MaxMul = gen.OneOf[int64](rt, "gmaxmulcut", 1, 1, 2) // a cut: the live params give shorter intervals than the stored ones
+				}
 			case 1:
 				ch.MinMul = gen.OneOf[int64](rt, "gminmul", 1, 2, 2, 3, 3)
 			case 2:
